@@ -66,8 +66,10 @@ def gen_cases(ctx, p, d, exhaustive, npairs):
         unary = list(range(q))
     else:
         bnd = sorted({0, 1, 2 % q, q - 1, q - 2 if q > 2 else 0, q // 2, (q // 2 + 1) % q})
-        pairs = [(a, b) for a in bnd[:4] for b in bnd[:4]]
-        while len(pairs) < npairs + 16:
+        nb = 3 if npairs <= 3 else 4
+        bsel = [bnd[0], bnd[1], bnd[-1]] if nb == 3 else bnd[:3] + [bnd[-1]]
+        pairs = [(a, b) for a in bsel for b in bsel]
+        while len(pairs) < npairs + nb * nb:
             pairs.append((rng.randrange(q), rng.randrange(q)))
         pairs.append((pairs[-1][0], pairs[-1][0]))           # equal operands
         unary = bnd + [rng.randrange(q) for _ in range(4)]
@@ -100,10 +102,15 @@ def make_prog(specs):
             B = mpc.input([secfld(b if pid == m - 1 else 0) for a, b in pairs], senders=m - 1)
             U = mpc.input([secfld(u if pid == 1 % m else 0) for u in unary], senders=1 % m)
             outs, labels = [], []
+            routs, rlabels = [], []      # lifted types: public-int mul/div opened raw (no out-conversion assert)
 
             def add(lbl, v):
-                labels.append(lbl)
-                outs.append(v)
+                if lifted and lbl[0] in ('mulc', 'rmulc', 'divc', 'rdivc'):
+                    rlabels.append(lbl)
+                    routs.append(v)
+                else:
+                    labels.append(lbl)
+                    outs.append(v)
             for i, ((a, b), x, y) in enumerate(zip(pairs, A, B)):
                 add(('add', i), x + y)
                 add(('sub', i), x - y)
@@ -122,7 +129,7 @@ def make_prog(specs):
                 if p == 2:
                     add(('inv', i), ~x)
                 add(('pow_q1', i), x ** (q - 1))
-                for k in POW_KS:
+                for k in (POW_KS if len(unary) <= 6 else POW_KS[i % 3::3] + [254]):
                     if k >= 0 or u:
                         add(('pow', i, k), x ** k)
                 if u:
@@ -145,7 +152,7 @@ def make_prog(specs):
             bits_done = []
             if (d == 1 or p == 2) and not (lifted and p > 2):
                 l = secfld.bit_length
-                for i, x in enumerate(U[:6]):
+                for i, x in enumerate(U[:6] if q <= 256 else U[:2]):
                     bits = mpc.to_bits(x)
                     for j, bj in enumerate(bits):
                         add(('bit', i, j), bj)
@@ -153,6 +160,10 @@ def make_prog(specs):
                     bits_done.append(i)
             got = await mpc.output(outs)
             vals = [(canon(v), type(v) is Freq) for v in got]
+            if routs:
+                rgot = await mpc.output(routs, raw=True)
+                labels = labels + rlabels
+                vals = vals + [(int(v.value), int(v.value) < p) for v in rgot]   # in the image of GF(p) iff constant
             zpub = []
             for i, x in enumerate(U[:5]):
                 zpub.append(bool(await mpc.is_zero_public(x)))
@@ -268,8 +279,8 @@ def _run(ctx):
     configs = [(1, 0), (2, 0), (3, 1), (4, 1), (5, 2)] + ctx.n([], [(5, 1), (6, 2), (7, 3)])
     fields = field_list(ctx)
     ctx.rule = ('case = (config (m,t,prss), requested field, operator, operands); operands genuinely shared by mpc.input from '
-                'different parties; all element pairs for order <= 16 in configs (1,0),(3,1) (order <= %d elsewhere), '
-                'boundary + random above; non-trivial = every case (distinct by config/field/op/operands)' % ctx.n(5, 16))
+                'different parties; all element pairs for order <= 16 in config (3,1,PRSS) (order <= %d for m <= 3, <= 5 for m >= 4), '
+                'boundary + random above; non-trivial = every case (distinct by config/field/op/operands)' % ctx.n(9, 16))
     ctx.explanation = ('outputs of the real multi-party protocols vs plain finfields arithmetic, type of every output = requested '
                        'field; Coq model (ZpOps / bit vectors) evaluated on the same operands and compared exactly')
     coq_cases = {}     # key -> impl value (first seen); compared across configs too
@@ -281,18 +292,25 @@ def _run(ctx):
     for (m, t) in configs:
         for no_prss in (False, True):
             cfg = 'm=%d,t=%d,%s' % (m, t, 'noprss' if no_prss else 'prss')
-            full_small = (m, t) in ((1, 0), (3, 1)) or ctx.tier == 'thorough'
+            # workload level: 2 = all pairs for order <= 16; 1 = all pairs for order <= 9; 0 = order <= 5 + fewer fields
+            if ctx.tier == 'thorough':
+                level = 2 if m <= 5 else 1
+            else:
+                level = 2 if (m, t, no_prss) == (3, 1, False) else 1 if (m <= 3 and not no_prss) or m == 3 else 0
+            exq = {2: 16, 1: 9, 0: 5}[level]
             specs = []
             for (p, d) in fields:
                 q = p ** d
-                ex = q <= (16 if full_small else ctx.n(5, 16))
-                if ex and (m, t) == (1, 0) and no_prss and q > 9 and ctx.tier == 'quick':
-                    ex = False
-                pairs, unary = gen_cases(ctx, p, d, ex, ctx.n(6, 20))
+                if level == 0 and q not in ((2, 3, 4, 5, 7, P64, 16, 256, 9) if m >= 4 else (2, 3, 4, 5, 7, 11, 101, P31, P64, 8, 16, 256, 9, 27, 25)):
+                    continue
+                ex = q <= exq
+                pairs, unary = gen_cases(ctx, p, d, ex, ctx.n(3, 20) if level == 0 else ctx.n(6, 20))
+                if level == 0 and not ex:
+                    unary = unary[:5]
                 if ex:
                     exhaustive_done.add((cfg, q))
                 if d == 1:
-                    consts = [rng.choice([0, 1, 2, 3, -1, q - 1, q, q + 1, rng.randrange(-q, 2 * q)]) for _ in range(5)]
+                    consts = [q + 1, 2] + [rng.choice([0, 1, 3, -1, q - 1, q, -q - 2, rng.randrange(-q, 2 * q)]) for _ in range(3)]
                 else:       # ints denote elements by their base-p digits: stay inside [0, q)
                     consts = [rng.choice([0, 1, 2, 3, q - 1, rng.randrange(q)]) % q for _ in range(5)]
                 specs.append((p, d, pairs, unary, consts))
@@ -304,7 +322,7 @@ def _run(ctx):
                 if not sim.started:
                     ctx.violation('sim-start-failed ' + cfg, {'cfg': cfg, 'start': repr(st)})
                     continue
-                res = sim.run(make_prog(specs))
+                res = sim.run(make_prog(specs), idle_limit=1500 if m > 1 else 10 ** 8)
                 if all(r != 'PENDING' for r in res):
                     sim.shutdown()
             finally:
@@ -354,6 +372,13 @@ def _run(ctx):
                     if d == 1 and binop and op in ('add', 'sub', 'mul', 'div', 'eq', 'ne'):
                         w2 = ref_prime(p, op, *pairs[i])
                         assert w2 == want, ('oracle self-check', p, op, pairs[i], w2, want)
+                    cst = consts[i % len(consts)] if not binop else None
+                    if info['lifted'] and op in ('mulc', 'rmulc', 'divc', 'rdivc') and not 0 <= cst < q and (val != want or not tyok):
+                        # F-C04-2: _coerce2 passes the int through unreduced; the lifted field reads it in base q
+                        ctx.violation('lifted public-int-operand-outside-[0,q) op=%s %s %s' % (op, name, cfg),
+                                      {'cfg': cfg, 'field': name, 'work_field': info['work_field'], 'op': op, 'x': operands,
+                                       'const': cst, 'raw_output_int': val, 'in_subfield': tyok, 'want': want})
+                        continue
                     if val != want:
                         ctx.violation('value-mismatch %s%s op=%s %s' % ('lifted ' if info['lifted'] else '', name, op, cfg),
                                       {'cfg': cfg, 'field': name, 'work_field': info['work_field'], 'op': list(lbl),
@@ -452,7 +477,7 @@ def _run(ctx):
     ctx.log('evaluating %d model expressions in Coq' % len(exprs))
     mism = 0
     if ok and exprs:
-        out = ctx.coq_eval(['MPyC.SecFld'], exprs, chunk=250)
+        out = ctx.coq_eval(['MPyC.SecFld'], exprs, chunk=140)
         model = {}
         for k, r in zip(keys, out):
             if isinstance(r, tuple) and r and r[0] == 'ERROR':
